@@ -129,6 +129,10 @@ pub(crate) fn index_of(list: &ForeignMasterList, sender: PortIdentity, bound: us
     }
     r
 }
+pub(crate) fn newest_of(list: &ForeignMasterList, i: usize) -> (u16, i128) {
+    let m = list.foreign_masters[i].announce_messages.last().unwrap();
+    (m.header.sequence_id, dur_bits(m.age))
+}
 pub(crate) fn total_messages(list: &ForeignMasterList, bound: usize) -> usize {
     let mut i = 0;
     let mut n = 0;
@@ -330,4 +334,34 @@ fn c06_take_qualified_needs_two_messages() {
     if n0 > 1 { assert!(n_messages_of(&list, 1) == if len_b >= 2 { len_b - 1 } else { len_b }); }
     kani::cover!(count == 2);
     kani::cover!(count == 0 && n0 == 2);
+}
+
+
+/// capacity: with all MAX_FOREIGN_MASTERS records in use a further master is not recorded -- and nothing panics
+/// (records 0..8 have concrete distinct senders, the newcomer is arbitrary)
+#[kani::proof]
+#[kani::unwind(10)]
+#[kani::stub(<Duration as core::ops::Mul<u16>>::mul, stub_mul_window)]
+fn c06_register_at_capacity() {
+    let own = PortIdentity { clock_identity: ClockIdentity([0xee; 8]), port_number: 1 };
+    let interval = TimeInterval(fixed::types::I48F16::from_bits(1 << 40));
+    let mut list = ForeignMasterList::new(interval, own);
+    let template = any_announce();
+    kani::assume(template.steps_removed < 255);
+    let mut i: u8 = 0;
+    while i < MAX_FOREIGN_MASTERS as u8 {
+        let mut a = template;
+        a.header.source_port_identity = PortIdentity { clock_identity: ClockIdentity([i; 8]), port_number: 1 };
+        list.register_announce_message(&a.header, &a, dur_from_bits(0));
+        i += 1;
+    }
+    assert!(n_masters(&list) == MAX_FOREIGN_MASTERS);
+    let mut newcomer = any_announce();
+    kani::assume(newcomer.steps_removed < 255);
+    let s = newcomer.header.source_port_identity;
+    kani::assume(s.clock_identity != own.clock_identity && s.clock_identity.0[0] >= 8);
+    newcomer.header.source_port_identity = s;
+    list.register_announce_message(&newcomer.header, &newcomer, dur_from_bits(0));
+    assert!(n_masters(&list) == MAX_FOREIGN_MASTERS);
+    assert!(index_of(&list, s, MAX_FOREIGN_MASTERS).is_none());
 }
